@@ -98,9 +98,13 @@ var ripemd = common.HexToAddress("0000000000000000000000000000000000000003")
 
 func (ch touchChange) undo(s *StateDB) {
 	if !ch.prev && *ch.account != ripemd {
-		s.getStateObject(*ch.account).touched = ch.prev
+		obj := s.getStateObject(*ch.account)
+		obj.touched = ch.prev
 		if !ch.prevDirty {
+			// clean again: re-arm the one-shot dirty callback together with removing
+			// the object from the dirty set, or later changes would never be written
 			delete(s.stateObjectsDirty, *ch.account)
+			obj.onDirty = s.MarkStateObjectDirty
 		}
 	}
 }
